@@ -20,10 +20,13 @@ import (
 	"encoding/json"
 	"flag"
 	"fmt"
+	"io"
 	"os"
 	"path/filepath"
 	"sort"
 	"strings"
+
+	log "github.com/sirupsen/logrus"
 )
 
 // ---------------------------------------------------------------- PRNG (splitmix64)
@@ -226,6 +229,7 @@ func main() {
 		os.Exit(2)
 	}
 	name := os.Args[1]
+	log.SetOutput(io.Discard)
 	fs := flag.NewFlagSet("h", flag.ExitOnError)
 	seed := fs.Uint64("seed", 1, "PRNG seed")
 	tier := fs.String("tier", "quick", "quick|thorough")
